@@ -546,7 +546,10 @@ def attach(run0, replay0, cases0, report):
         cov['distinct_nontrivial'] = cov.get('distinct_nontrivial', 0) + r['n_distinct']
         cov['rule'] = cov.get('rule', '') + '  ' + r['rule']
         cov.setdefault('distribution', {})['c07x'] = r['stats']
-        vno = [x for x in cov.get('validated_numerically_only', []) if 'prefmix' not in x and 'effective degree' not in x and 'initial conditions' not in x]
+        vno = [x for x in cov.get('validated_numerically_only', []) if 'prefmix' not in x and 'effective degree' not in x and 'initial conditions' not in x and 'chain rule' not in x]
+        vno.append('initial conditions of the regular-graph wrappers on the symmetric subspace (harness/c07.py curve oracles)')
+        if 'cited' in cov:
+            cov['cited'] = [x for x in cov['cited'] if 'chain rule' not in x]
         cov['validated_numerically_only'] = vno + PROVED_STATE['numerical']
         cov['proved_c07x'] = PROVED_STATE['proved'] + ['EBCM -> SIR super-compact pairwise -> SIR compact pairwise (formal derivative, no chain rule assumed)',
                               'wrappers\' rho-path closures and initial vectors lie on the manifold', 'EBCM_pref_mix = EBCM for uncorrelated mixing (continuous: vector fields; discrete: every step)']
